@@ -42,6 +42,10 @@ def obligations(tier):
            'fills its first physical record exactly or misses / exceeds it by 1..2 bytes; written, laid out per LIS-79, read back whole, after seeks, and in sized pieces',
            ['PhysRecWrite.writeLr', 'PhysRecRead', 'TifMarker.TifMarkerRead.__init__/read', 'TifMarker.TifMarkerWrite', 'File.FileWrite/FileRead'], harness='C05_physrec', func='max_length_records',
            timeout=280 if q else 900, stubs=['SymFile', 'SymWFile']),
+        Ob('more_than_65536_physical_records', 'ch', 'a logical record of 65536..65538 bytes written one byte per physical record with a record number trailer, then a short record; TIF on/off: '
+           'layout per LIS-79 incl. the 16-bit record number of every physical record, positions, read after seek',
+           ['PhysRecWrite.writeLr', 'PhysRecTail.prtRecNum/normalise', 'TifMarker.TifMarkerWrite', 'File.FileWrite/FileRead'], harness='C05_physrec', func='many_physical_records',
+           timeout=280 if q else 900, stubs=['SymFile', 'SymWFile']),
         Ob('sized_reads_and_skips_quick', 'ch', '2 records (9 and 4 bytes), capacity 2..3, TIF on/off, seek to record j, read(n)/skip(n) with n 0..5 then 0..4, then either read the rest or seek (from wherever the reads stopped) to the other / the same record: first byte, tellLr, seekCurrentLrStart + whole read',
            ['PhysRecRead.readLrBytes/skipLrBytes/__readOrSkip/__readLdWithinPr/__skipLdWithinPr/seekLr/tellLr/seekCurrentLrStart/_reset'], harness='C05_physrec', func='sized_reads_and_skips_q',
            timeout=240, parts=16, stubs=stubs, tiers=()),
